@@ -60,13 +60,13 @@ let out_meta k (m : rle_meta) =
 
 let sample_index i count =
   if count <= 96 then true
+  else if count > 10000 then i < 3 || i + 3 >= count || i mod (count / 6 + 1) = 0
   else if i < 8 || i + 8 >= count then true
   else i mod (count / 16 + 1) = 0
 
 let out_rres_len k r = match r with
-  | ROk l -> out_int k (len l)
-  | ROob _ -> out_str k "oob"
-  | RFuel _ -> out_str k "fuel"
+  | RleOk l -> out_int k (len l)
+  | RleFuel _ -> out_str k "fuel"
 
 let out_optn k = function Some x -> out_n k x | None -> out_str k "fuel"
 
@@ -89,7 +89,7 @@ let () = register "rle_enc" (fun a ->
   out_int "ben2" (if rle_is_beneficial v then 1 else 0);
   let r = if hdr then rle_decode_with_header bytes cn else rle_decode bytes cn in
   out_rres_len "dn" r;
-  out_cmp "rt" (rres_stores r) v;
+  out_cmp "rt" (rle_stores r) v;
   out_str "dguard" "ok";
   if hdr then begin
     out_n "getcount" (rle_get_count bytes);
@@ -119,11 +119,21 @@ let () = register "rle_cap" (fun a ->
   let r = if hdr then rle_decode_with_header bytes cap else rle_decode bytes cap in
   out_int "n" (len bytes);
   out_rres_len "ret" r;
-  (match r with ROob _ -> out_str "guard" "hi" | _ -> out_str "guard" "ok");
-  let st = rres_stores r in
+  out_str "guard" "ok";
+  let st = rle_stores r in
   out_int "touched" (len st);
   let k = min (len st) capi in
   out_cmp "out" (firstn k st) (firstn k v))
+
+let () = register "rle_hostile" (fun a ->
+  let b = bytes_of_hex a.(0) in
+  let cap = n_of_string a.(1) in
+  let r = rle_decode b cap in
+  out_rres_len "ret" r;
+  out_str "guard" "ok";
+  let st = rle_stores r in
+  out_int "touched" (len st);
+  out_nlist "out" st)
 
 let () = register "rle_rc" (fun a ->
   let b = bytes_of_hex a.(0) in
@@ -136,15 +146,15 @@ let nsub1 x = n_of_z (BZ.erem (BZ.pred (z_of_n x)) two64)
 
 let out_dict_info (v : n list) =
   match dict_build v with
-  | BuildFail -> out_int "build" (-1)
-  | BuildOverflow -> out_str "build" "overflow"
-  | BuildOk d ->
+  | DictBuildFail -> out_int "build" (-1)
+  | DictBuildOverflow -> out_str "build" "overflow"
+  | DictBuildOk d ->
     out_int "build" 0;
-    out_n "ds" d.d_size;
-    out_int "dw" (int_of_nat d.d_index_width);
-    let arr = Array.of_list v in
-    let count = Array.length arr in
-    let probes = List.concat_map (fun i -> [arr.(i); nadd1 arr.(i); nsub1 arr.(i)]) [0; count / 2; count - 1]
+    out_n "ds" d.dct_size;
+    out_int "dw" (int_of_nat d.dct_index_width);
+    let dict_arr = Array.of_list v in
+    let count = Array.length dict_arr in
+    let probes = List.concat_map (fun i -> [dict_arr.(i); nadd1 dict_arr.(i); nsub1 dict_arr.(i)]) [0; count / 2; count - 1]
                  @ [n_of_int 0; u64max] in
     let lk = ref "ok" in
     let res = List.map (fun p ->
@@ -155,7 +165,7 @@ let out_dict_info (v : n list) =
         r) probes in
     out_zlist "find" res;
     out_str "lookup" !lk;
-    out_n "lookup_oob" (dict_lookup d d.d_size)
+    out_n "lookup_oob" (dict_lookup d d.dct_size)
 
 let out_stats v =
   match dict_get_stats v with
@@ -165,12 +175,12 @@ let out_stats v =
 let decode_both (bytes : n list) (v : n list) =
   let n = n_of_int (len bytes) in
   (match dict_decode bytes n with
-   | DOk (out, _) -> out_str "dec" "ok"; out_int "oc" (len out); out_cmp "rt" out v
-   | DFuel -> out_str "dec" "fuel"
+   | DictOk (out, _) -> out_str "dec" "ok"; out_int "oc" (len out); out_cmp "rt" out v
+   | DictFuel -> out_str "dec" "fuel"
    | _ -> out_str "dec" "null");
   (match dict_decode_into bytes n (n_of_int (len v)) with
-   | DOk (out, _) -> out_int "di" (len out); out_cmp "rt2" out v
-   | DFuel -> out_str "di" "fuel"
+   | DictOk (out, _) -> out_int "di" (len out); out_cmp "rt2" out v
+   | DictFuel -> out_str "di" "fuel"
    | _ -> out_int "di" 0; out_cmp "rt2" [] v);
   out_str "dguard" "ok"
 
@@ -195,9 +205,9 @@ let () = register "dict_with" (fun a ->
   let dv = segs_of_arg a.(0) in
   let v = segs_of_arg a.(1) in
   match dict_build dv with
-  | BuildFail -> out_int "build" (-1)
-  | BuildOverflow -> out_str "build" "overflow"
-  | BuildOk d ->
+  | DictBuildFail -> out_int "build" (-1)
+  | DictBuildOverflow -> out_str "build" "overflow"
+  | DictBuildOk d ->
     out_int "build" 0;
     let size = dict_encoded_size_with_dict d (n_of_int (len v)) in
     out_n "size" size;
@@ -217,8 +227,8 @@ let () = register "dict_cap" (fun a ->
   let bytes = if snd r then fst r else [] in
   out_int "n" (len bytes);
   let (ret, st) = match dict_decode_into bytes (n_of_int (len bytes)) cap with
-    | DOk (out, _) -> (len out, out)
-    | DPartial (out, _) -> (0, out)
+    | DictOk (out, _) -> (len out, out)
+    | DictPartial (out, _) -> (0, out)
     | _ -> (0, []) in
   out_int "ret" ret;
   out_str "guard" (if len st <= int_of_n cap then "ok" else "hi");
@@ -231,13 +241,13 @@ let () = register "dict_dec" (fun a ->
   let cap = n_of_string a.(1) in
   let n = n_of_int (len b) in
   (match dict_decode b n with
-   | DOk (out, _) -> out_str "dec" "ok"; out_int "oc" (len out); out_nlist "out" (firstn 4096 out)
-   | DFuel -> out_str "dec" "fuel"
+   | DictOk (out, _) -> out_str "dec" "ok"; out_int "oc" (len out); out_nlist "out" (firstn 4096 out)
+   | DictFuel -> out_str "dec" "fuel"
    | _ -> out_str "dec" "null");
   let (ret, st) = match dict_decode_into b n cap with
-    | DOk (out, _) -> (string_of_int (len out), out)
-    | DPartial (out, _) -> ("0", out)
-    | DFuel -> ("fuel", [])
+    | DictOk (out, _) -> (string_of_int (len out), out)
+    | DictPartial (out, _) -> ("0", out)
+    | DictFuel -> ("fuel", [])
     | _ -> ("0", []) in
   out_str "di" ret;
   out_str "guard" (if len st <= int_of_n cap then "ok" else "hi");
